@@ -60,10 +60,19 @@ func (p *ParserPlanner) Process(ctx *shared.PlannerContext,
 			if entry.Err != nil {
 				return nil
 			}
-			var err error
-			entry.Labels, err = parser(entry.Message, &entry.Labels)
+			// a line the parser cannot decode stays in the stream with the labels it has: nothing is extracted
+			// from it (as JSONExtract does on the ClickHouse side), it does not end the stream
+			extracted := map[string]string{}
+			if _, err := parser(entry.Message, &extracted); err == nil {
+				if entry.Labels == nil {
+					entry.Labels = extracted
+				}
+				for k, v := range extracted {
+					entry.Labels[k] = v
+				}
+			}
 			entry.Fingerprint = fingerprint(entry.Labels)
-			return err
+			return nil
 		},
 		OnAfterEntriesSlice: func(entries []shared.LogEntry, c chan []shared.LogEntry) error {
 			c <- entries
